@@ -47,6 +47,22 @@ def do_delete(branch, force=False):
                                     'please check branch permissions.')
 
 
+def is_stabilization_of(repo, name, dev_branch):
+    """Is `name` a stabilization branch of the line of `dev_branch`?
+
+    Versions are compared as numbers: 'stabilization/04.3.1' belongs to
+    'development/4.3'.
+
+    """
+    try:
+        branch = branch_factory(repo, name)
+    except exceptions.UnrecognizedBranchPattern:
+        return False
+    return (isinstance(branch, StabilizationBranch) and
+            branch.major == dev_branch.major and
+            branch.minor == dev_branch.minor)
+
+
 @handler(DeleteBranchJob)
 def delete_branch(job: DeleteBranchJob):
     """Delete a destination branch."""
@@ -82,7 +98,9 @@ def delete_branch(job: DeleteBranchJob):
     if not isinstance(del_branch, StabilizationBranch) and \
        not isinstance(del_branch, HotfixBranch):
         stab_prefix = 'stabilization/%s' % del_branch.version
-        if any([b.startswith(stab_prefix) for b in repo.remote_branches]):
+        if any([b.startswith(stab_prefix) or
+                is_stabilization_of(repo, b, del_branch)
+                for b in repo.remote_branches]):
             raise exceptions.JobFailure('Cannot delete branch %r because '
                                         'there is an active stabilization '
                                         'branch in the repository.' %
